@@ -168,7 +168,7 @@ func (c *C07) Run(x *engine.Ctx) *engine.Violation {
 		for d := 0; d < deliveries; d++ {
 			target, h, pr := s, hash, proof
 			kind, accept := "own-hash", true
-			switch t.Weighted(3, 2, 2, 2, 2, 2, 2, 2, 2) {
+			switch t.Weighted(3, 2, 2, 2, 2, 2, 2, 2, 1, 2, 2) {
 			case 0:
 			case 1:
 				h = new(big.Int).Add(hash, new(big.Int).Mul(oracle.R, big.NewInt(int64(1+t.Draw(4)))))
@@ -213,9 +213,29 @@ func (c *C07) Run(x *engine.Ctx) *engine.Violation {
 				var ak string
 				pr, ak = alteredProof(t, proof)
 				kind, accept = "altered-proof/"+ak, false
-			default:
+			case 8:
 				h = big.NewInt(0)
 				kind, accept = "zero-hash", false
+			case 9:
+				// negative integers: -h is another field element (reject); h - k*r is the same one (accept)
+				if t.Chance(1, 2) {
+					h = new(big.Int).Neg(hash)
+					if oracle.Mod(h).Cmp(oracle.Mod(hash)) == 0 {
+						continue
+					}
+					kind, accept = "negated-hash", false
+				} else {
+					h = new(big.Int).Sub(hash, new(big.Int).Mul(oracle.R, big.NewInt(int64(1+t.Draw(8)))))
+					kind = "hash-minus-k-r"
+				}
+			default:
+				// same low 256 (or 253) bits, different integer: must not collide with the own hash
+				sh := []uint{256, 253, 254, 255, 264}[t.Pick(5)]
+				h = new(big.Int).Add(hash, new(big.Int).Lsh(big.NewInt(int64(1+t.Draw(3))), sh))
+				if oracle.Mod(h).Cmp(oracle.Mod(hash)) == 0 {
+					continue
+				}
+				kind, accept = "hash-plus-high-bits", false
 			}
 			err := verifyVia(target, h, pr)
 			x.S.Eval(1)
